@@ -208,16 +208,43 @@ def check_fresh_provider(cx, f):
         return False
     clo = c['args'][0]
     body = clo['body']
+    while body['k'] == 'Block' and len(body['stmts']) == 1 and body['stmts'][0]['k'] == 'Expr' and not body['stmts'][0]['semi']:
+        body = body['stmts'][0]['expr']
     cand = None
+    rename = {}
+    if body['k'] == 'Call' and body['func']['k'] == 'Path':
+        # the comparison is delegated to a crate-local helper: analyse its body with the candidate argument substituted
+        fns = cx.crate.find_fn(f.module, [x['id'] for x in body['func']['path']['segs']], f.self_ty)
+        if len(fns) != 1:
+            return False
+        g = fns[0]
+        names = [p_[0] for p_ in g.params() if p_[0] != 'self']
+        if len(names) != len(body['args']):
+            return False
+        for n_, a_ in zip(names, body['args']):
+            rename[n_] = es(a_).lstrip('&*').strip()
+        gw = cx.fw(g)
+        if gw.tail is None or any(ev.kind == 'exit' and ev.how == 'return' for ev in gw.events):
+            return False
+        body = gw.tail
+    def side_name(x):
+        t = es(x).replace(' ', '').lstrip('&*')
+        return rename.get(t, t)
     kinds_compared = set()
     if body['k'] == 'Match':
         for a in body['arms']:
             ps = pat_s(a['pat'])
             b = a['body']
             if b['k'] == 'Binary' and b['op'] == '==':
-                side = es(b['r_'])
+                l_, r_ = es(b['l_']).replace(' ', ''), es(b['r_']).replace(' ', '')
+                if l_.endswith('.ident'):
+                    side = side_name(b['r_'])
+                elif r_.endswith('.ident'):
+                    side = side_name(b['l_'])
+                else:
+                    return False
                 cand = cand or side
-                if side != cand or not es(b['l_']).endswith('.ident'):
+                if side != cand:
                     return False
                 for kname in ('Type', 'Const', 'Lifetime'):
                     if 'GenericParam::' + kname in ps:
